@@ -131,8 +131,47 @@ def rule_v5(ctx, facts, files):
     return n
 
 
+def rule_v6(ctx, facts):
+    """a visitor that fills a collection it did not create itself (`deserialize_in_place`: the target is handed in through the visitor)
+    clears it before the first insert -- otherwise what the target held before survives, and deserialising does not yield the collection
+    that was serialised"""
+    from .rules_c17 import inserting
+    ins_ids = {b.id for b, _, _ in inserting(facts)[0]}
+    n = 0
+    for b, rb in de_bodies(facts):
+        fl = flow(b)
+        ins = [c for c in b.calls if c.resolved in ins_ids and not b.is_cleanup(c.b) and c.args and facts.by_id[c.resolved].name in ("insert", "try_insert", "put")]
+        if not ins:
+            continue
+        for c in ins:
+            r = op_root(c.args[0])
+            if r is None:
+                continue
+            roots, locs = fl.roots(r)
+            handed_in = any(x[0] == "arg" for x in roots) and not any(
+                x[0] == "call" and b.call_at(x[1]) is not None and callee_str(b.call_at(x[1])).rsplit("::", 1)[-1] in (
+                    "with_hasher", "with_capacity_and_hasher", "with_capacity", "new", "default") for x in roots)
+            n += 1
+            if not handed_in:
+                ctx.inst("V6", b, "collection filled by the visitor", c.span, True, "created by the visitor itself (empty)")
+                continue
+            clears = [x for x in b.calls if x.name == "clear" and not b.is_cleanup(x.b) and x.args and op_root(x.args[0]) is not None
+                      and fl.closure_locals(op_root(x.args[0])) & locs]
+            from .analysis import dominates
+            ok = any(dominates(b, x.point, c.point) for x in clears)
+            ctx.inst("V6", b, "collection filled by the visitor", c.span, ok,
+                     "handed in from outside and cleared before the first insert" if ok else
+                     "the visitor inserts into a collection that was handed to it (deserialize_in_place) without clearing it first: entries the "
+                     "target held before survive, and the result is not the collection that was serialised")
+    return n
+
+
 def run(ctx, facts):
     feats = set(facts.features)
+    if "serde" in feats:
+        ctx.rule("V6", "a visitor inserts only into a collection it created itself, or clears the one it was handed before the first insert")
+        ctx.set_floor("V6", 2, "visit_map, visit_seq")
+        rule_v6(ctx, facts)
     ctx.rule("V5", "between the input (parallel iterator / deserialiser) and the insert nothing can drop or merge items: no filtering, "
                    "deduplicating, truncating or searching adaptor, no removing container operation in the rayon and serde entry points")
     files = tuple(f for f, k in (("rayon_impls.rs", "rayon"), ("serde_impls.rs", "serde")) if k in feats)
